@@ -12,7 +12,7 @@ import numpy as np
 from harness import simlayout as sl
 
 
-def ops_oracle_job(comm, cfile, nprocs, seed, which, out):
+def ops_oracle_job(comm, cfile, nprocs, seed, which, out, amp=1.0):
     from pygyro.initialisation import setups
     from pygyro.model.grid import Grid
     from pygyro.model.layout import LayoutSwapper
@@ -32,7 +32,7 @@ def ops_oracle_job(comm, cfile, nprocs, seed, which, out):
         eta = f.eta_grid
         npts = [len(e) for e in eta]
         r_, q_, z_ = np.meshgrid(eta[0], eta[1], eta[2], indexing="ij")
-        R = np.random.RandomState(seed).uniform(-1.0, 1.0, npts[:3]) * 0.05 + 0.3 * np.cos(2 * q_ + 0.01 * z_) * np.sin(r_ / 3.0)
+        R = amp * (np.random.RandomState(seed).uniform(-1.0, 1.0, npts[:3]) * 0.05 + 0.3 * np.cos(2 * q_ + 0.01 * z_) * np.sin(r_ / 3.0))
         lay = rem.getLayout("v_parallel_2d")
         phi.getAllData()[:] = np.transpose(R, (0, 2, 1))[lay.starts[0]:lay.ends[0], lay.starts[1]:lay.ends[1], lay.starts[2]:lay.ends[2]]
         dt = c.dt
@@ -106,7 +106,7 @@ def ops_oracle_job(comm, cfile, nprocs, seed, which, out):
 GRIDS = ([1, 1], [2, 1], [1, 2], [2, 2])
 
 
-def check_grid_level(ctx, rng, which, npts=(6, 8, 9, 8), grids=GRIDS, consts=None):
+def check_grid_level(ctx, rng, which, npts=(6, 8, 9, 8), grids=GRIDS, consts=None, amp=1.0):
     """Run the oracle on every process grid; report violations under the calling property.  Returns the number of comparisons."""
     import os
     import shutil
@@ -126,7 +126,7 @@ def check_grid_level(ctx, rng, which, npts=(6, 8, 9, 8), grids=GRIDS, consts=Non
             nr = int(np.prod(g))
             out = [None] * nr
             sched = dict(policy=rng.choice(["asc", "desc", "random", "rr"]), seed=rng.randint(0, 10 ** 6))
-            rs = MPI.run(nr, ops_oracle_job, args=(cfile, list(g), 7, which, out), **sched)
+            rs = MPI.run(nr, ops_oracle_job, args=(cfile, list(g), 7, which, out, amp), **sched)
             if not rs.ok:
                 ctx.violation({"kind": "grid-level-raises", "operator": which, "error": rs.describe().split(":")[0][:60]},
                               "grid-level %s operator on process grid %s: %s" % (which, g, rs.describe()[:400]), {"nprocs": list(g), "schedule": sched})
@@ -134,12 +134,12 @@ def check_grid_level(ctx, rng, which, npts=(6, 8, 9, 8), grids=GRIDS, consts=Non
             for rk, res in enumerate(out):
                 for stage, dev, finite in res or []:
                     n += 1
-                    ctx.count(("grid-level", which, tuple(g), stage, rk))
+                    ctx.count(("grid-level", which, tuple(g), stage, rk, amp))
                     if not (finite and dev <= 1e-12):
-                        ctx.violation({"kind": "grid-level", "operator": which, "stage": stage, "multi_process": nr > 1},
+                        ctx.violation({"kind": "grid-level", "operator": which, "stage": stage, "multi_process": nr > 1, "weak_potential": amp != 1.0},
                                       "%s on process grid %s, rank %d: the local block deviates by %g (relative) from `step` applied to every "
                                       "slice with the parameters of its own global coordinates" % (stage, g, rk, dev),
-                                      {"nprocs": list(g), "rank": rk, "stage": stage, "npts": list(npts), "schedule": sched})
+                                      {"nprocs": list(g), "rank": rk, "stage": stage, "npts": list(npts), "schedule": sched, "potential_amplitude": amp})
     finally:
         setups.compute_2d_process_grid = orig
         shutil.rmtree(work, ignore_errors=True)
